@@ -342,6 +342,7 @@ def command_cases(draw, command=None):
         "dimension": draw(st.sampled_from([None, "station", "obs"])),
         "format": draw(st.sampled_from(["geojson", "wkt", "wkb", "shapefile", "auto.geojson",
                                         "auto.json", "auto.wkt", "auto.wkb", "auto.shp"])),
+        "repeat_row": draw(st.sampled_from([0, 0, 1, 2, 3])),
         "explicit_extension": draw(st.sampled_from([".out", "", ".geojson", ".json", ".wkt", ".wkb",
                                                     ".shp", ".txt"])),
         "failure": draw(st.sampled_from(["miss_error", "unknown_extension", "unknown_extension",
@@ -427,7 +428,15 @@ def check_command(case, ctx):
             if not xys or not any(hits):
                 return
             lon_col, lat_col = case["columns"] or ["lon", "lat"]
-            frame = pandas.DataFrame({"name": [f"p{k}" for k in range(len(xys))],
+            names = [f"p{k}" for k in range(len(xys))]
+            if case.get("repeat_row") and len(xys) >= 2:
+                # the same station listed twice (every column equal), with other rows after it
+                k = case["repeat_row"] % (len(xys) - 1)
+                xys.insert(k + 1, xys[k])
+                hits.insert(k + 1, hits[k])
+                names.insert(k + 1, names[k])
+                ctx.label("points_table_with_repeated_row")
+            frame = pandas.DataFrame({"name": names,
                                       lon_col: [xy[0] for xy in xys], lat_col: [xy[1] for xy in xys]})
             csv = os.path.join(tmp, "points.csv")
             frame.to_csv(csv, index=False)
